@@ -1,0 +1,44 @@
+//go:build verif
+
+package indcpacom
+
+// Decoder schema (property C12), instantiated mechanically by `govc gen-decoders`: a decoder returns nil only if
+// the validating constructor, applied to the decoded fields, returned a nil error. Constructors marked
+// "assumed / purefn" are only assumed to be deterministic functions of their arguments.
+
+//@ func (*Commitment).UnmarshalCBOR
+//@   property C12
+//@   let dto = as(res(serde.UnmarshalCBOR(data), 0), *commitmentDTO)
+//@   ensures err == nil ==> res(NewCommitment(dto.C), 1) == nil
+
+//@ func (*Witness).UnmarshalCBOR
+//@   property C12
+//@   let dto = as(res(serde.UnmarshalCBOR(data), 0), *witnessDTO)
+//@   ensures err == nil ==> res(NewWitness(dto.S), 1) == nil
+
+//@ func (*Message).UnmarshalCBOR
+//@   property C12
+//@   let dto = as(res(serde.UnmarshalCBOR(data), 0), *messageDTO)
+//@   ensures err == nil ==> res(NewMessage(dto.M), 1) == nil
+
+//@ func (*CommitmentKey).UnmarshalCBOR
+//@   property C12
+//@   let dto = as(res(serde.UnmarshalCBOR(data), 0), *commitmentKeyDTO)
+//@   ensures err == nil ==> res(NewCommitmentKey(dto.EncryptionKey), 1) == nil
+
+//@ func NewCommitment
+//@   assumed
+//@   purefn
+
+//@ func NewCommitmentKey
+//@   assumed
+//@   purefn
+
+//@ func NewMessage
+//@   assumed
+//@   purefn
+
+//@ func NewWitness
+//@   assumed
+//@   purefn
+
